@@ -840,10 +840,43 @@ class Generator:
                 return []
             res = self.lit(Lt.fake_result([self._counts(nbits, 2) for _ in range(ncirc)]))
             return [self._call("tomo.fst_density_matrix", [res, me, self.lit(r.random() < 0.5)])]
+        if tag == "list[qc]" and info.get("len"):
+            # hand ONE element of a returned list back (a sub-object reference, not a copy): compress it, read it as a
+            # stabilizer, or let a documented in-place API work on it
+            i = r.randrange(info["len"])
+            el = self.ref(sid, [i])
+            nq = info.get("nq", n)
+            op = r.choice(["stab.new", "prep.compress_preparation_circuit", "rot.rotate_stabilizer_into_state",
+                           "rot.do_prepare_same_state"])
+            if op == "stab.new":
+                return [self._call(op, [el])]
+            if op == "prep.compress_preparation_circuit":
+                return [self._call(op, [el, self.lit(self._conn(nq, False))])] if nq in VALID else []
+            other = self.ref(sid, [r.randrange(info["len"])])
+            if op == "rot.do_prepare_same_state":
+                return [self._call(op, [el, other])]
+            return [self._call(op, [el, other, self.lit(True)])]
+        if tag == "list[list]" and info.get("len"):
+            # a basis from get_mubs fed back as a stabilizer
+            i = r.randrange(info["len"])
+            st = self._call("stab.new", [self.ref(sid, [i])])
+            nn = info.get("n_str") or n
+            follow = self._call(r.choice(["prep.get_readout_circuit", "lc.determine_lc_class", "stab.validate"]),
+                                [self.ref(st["id"])] )
+            if follow["op"].startswith("prep"):
+                follow["args"].append(self.lit(self._conn(nn, False)))
+            return [st, follow]
+        if tag == "tuple" and m.get("op") == "stab.expand":
+            return [self._call(r.choice(["f2.rank", "f2.rref", "f2.null_space"]), [self.ref(sid, [r.randrange(2)])])]
         if tag == "StabilizerCircuitInfo":
             return [self._call("lookup.info_parse_circuit", [me])]
         if tag == "MUBInfo":
-            return [self._call("lookup.mubinfo_copy", [me])]
+            sub = r.random()
+            if sub < 0.5:
+                return [self._call("lookup.mubinfo_copy", [me])]
+            if sub < 0.75:
+                return [self._call("stab.new", [self.ref(sid, [["a", "circuits"], 0])])]
+            return [self._call("stab.new", [self.ref(sid, [["a", "mubs"], 0])])]
         if tag.startswith("LCClass"):
             return [self._call(r.choice(["lc.id", "lc.get_graph", "lc.str"]), [me])]
         if tag == "list[nd]" and info.get("len") == 4:
